@@ -1,7 +1,8 @@
+import os
 import re, os
 def cases(tier, hdr, path):
     unit = hdr["sb_unit"]
-    src = open(os.path.join("/repo/src/core", unit)).read()
+    src = open(os.path.join(os.path.join(os.environ.get("VF_REPO", "/repo"), "src/core"), unit)).read()
     fns = re.findall(r"JANET_CORE_FN\((\w+),", src)
     out = []
     skip = set(hdr.get("sb_skip", []))
